@@ -1014,6 +1014,8 @@ func (vc *VC) mapUpdate(x *ssa.MapUpdate) {
 	if key, obj := vc.fieldOfMap(x.Map); key != "" {
 		vc.atStoreClauses(key, x.Pos(), v, mt.Elem(), vc.v(obj), obj.Type())
 	}
+	// `at_store MapType: COND`: at every update of a map of that (named) type
+	vc.atStoreClauses(vc.e.typeName(x.Map.Type()), x.Pos(), v, mt.Elem(), "", nil)
 	d, vn, ds, vs := vc.e.mapArrs(mt)
 	da, va := vc.arrCur(d, ds), vc.arrCur(vn, vs)
 	vc.setArr(d, ds, Sto(da, m, Sto(Sel(da, m), k, "true")))
